@@ -9,7 +9,7 @@ TAGS = {"C12": "C12:", "C13": "C13:"}
 # guarded points by number of (atomic-pointer design) effects performed before the crash
 POINTS = {0: ["run.id_chosen"], 1: ["run.slot_removed"], 2: ["run.slot_created", "run.planned", "run.group_begin"],
           3: ["run.executed", "run.result_opened", "sigkill"], 4: ["run.result_stored", "ptr.truncated", "ptr.written"],
-          5: ["run.pointer_saved"]}
+          5: ["ptr.renamed", "run.pointer_saved"]}
 TARGETS = ["t1", "t2", "t3"]
 
 
